@@ -30,6 +30,10 @@ CHECKS = {
    text="TLC generates behaviours that alternate calls through the owning tensor and through TensorMap / reshape<> (every same-size shape of rank 1-4) / flatten / squeeze handles of the same storage, validated by TLC after every call on the owner's whole guarded block (a handle is (buffer, shape) in the specification, so coherence is checked by construction); plus tocolumnmajor / torowmajor (both functions and both compositions, ranks 1-5) and constructors from raw pointer, std::array, std::vector (row/column-major flag) and nested initializer lists against the row-major / column-major offset operators.",
    note="Exact small-integer data. Dynamic seq views of rank<=2 TensorMaps and TensorMap = scalar do not compile in any configuration (not offered) and are not generated. Misaligned external buffers are C07's.",
    technique="TLA+ tensor-machine spec; tlc -generate behaviours replayed on the library; TLC trace validation"),
+ "C14": dict(level=MC, design="3/C14",
+   text="TLC enumerates every axis permutation of ranks 2-4 (rank 5 in the thorough tier) on shapes with pairwise distinct extents, for permute<> and the legacy permutation<>, tensor and unevaluated-expression arguments, and transpose/trans/ctrans over a box of (M,N) plus the blocked-kernel edge sizes; checks the L1 permutation algebra (inverse composition) on every enumerated case; every recorded result (static extents, all elements on position-revealing data, and the round trip through the inverse permutation) is validated by TLC against Permute!Permuted under SSE2/AVX2/AVX-512 and C++14/17.",
+   note="Exact data (flat indices). permutation<> is accepted by p or by p^-1 consistently; the library's mixed behaviour on non-involutive permutations is a listed known finding (D15), recognised by the trace spec as a named deviation so that any other wrong result is still a violation.",
+   technique="TLA+ L1 spec + TLC-enumerated plan + TLC trace validation of recorded results"),
 }
 NA_REASON = "check not built yet (work in progress in this session; see DESIGN.md section 3 for the planned model)"
 
